@@ -732,6 +732,8 @@ bool bloom_filter_alloc<A>::internal_query_and_update(uint64_t h0, uint64_t h1) 
   if (is_read_only_) {
     throw std::logic_error("Cannot update a read-only filter");
   }
+  // the cached count is stale after plain updates: recount before adjusting it incrementally
+  get_bits_used();
   const uint64_t num_bits = get_capacity();
   bool value_exists = true;
   for (uint16_t i = 1; i <= num_hashes_; i++) {
